@@ -371,7 +371,8 @@ class Responder(object):
         if u'date' not in self.headers:  # create Date header
             self.headers[u'date'] = httping.httpDate1123(datetime.datetime.utcnow())
 
-        if self.chunkable and 'transfer-encoding' not in self.headers:
+        if (self.chunkable and 'transfer-encoding' not in self.headers and
+                self.environ.get('REQUEST_METHOD') != 'HEAD'):  # no body so no chunks
             self.chunked = True
             self.headers[u'transfer-encoding'] = u'chunked'
 
@@ -395,6 +396,9 @@ class Responder(object):
             head = self.build()
             self.incomer.tx(head)
             self.headed = True
+
+        if self.environ.get('REQUEST_METHOD') == 'HEAD':
+            return  # response to HEAD must not have a body
 
         if self.chunked:
             msg = httping.packChunk(msg)
